@@ -118,6 +118,30 @@ def main(tier, seed, pid):
                     seen_parts.add(tgt)
                 kept.append(i)
             insts = kept
+        if pid == "C10" and k % 5 == 4:
+            # chains and cycles of NODE instances whose references step down, up or to and fro in id
+            m = r.choice([4, 5, 7])
+            nid = list(range(1, m + 1))
+            shape = r.choice(["down", "up", "zigzag", "cycle"])
+            if shape == "down":
+                seq = nid[::-1]
+            elif shape == "up":
+                seq = nid
+            else:
+                seq = nid[:]
+                r.shuffle(seq)
+            insts = []
+            for pos, i in enumerate(seq):
+                nxt = seq[pos + 1] if pos + 1 < len(seq) else (seq[0] if shape == "cycle" else None)
+                others = [x for x in seq[pos + 2:pos + 3]]
+                toks = ["NODE", "(", "'n%d'" % i, ",", ("#%d" % nxt) if nxt else "$", ",", "("]
+                for j, o in enumerate(others):
+                    toks += ([","] if j else []) + ["#%d" % o]
+                toks += [")", ")"]
+                insts.append({"id": i, "complex": False, "toks": toks,
+                              "parts": [("NODE", [("str", "n%d" % i), ("ref", nxt) if nxt else ("null",), ("list", [("ref", o) for o in others])])]})
+            insts.sort(key=lambda x: x["id"])
+            hist["chains"] = hist.get("chains", 0) + 1
         data, order = g.render(insts)
         fin = os.path.join(wdir, "in.p21")
         open(fin, "wb").write(data)
